@@ -189,6 +189,69 @@ def check_frame(I, con, spec, views, old_heap, name):
             ctx.oblige("%s/frame[%s]" % (name, fname), goal, kind="frame")
 
 
+def run_decorated(I, con, fi, bound):
+    """the function AS ITS DECORATORS LEAVE IT: the decorator expressions are evaluated by the interpreter on the raw function (so the real
+    code of an in-repo decorator runs), `after_decoration` may arrange the state the wrapper starts from (e.g. a guard that is held), then
+    the resulting callable is called with the contract's arguments"""
+    from .engine import Frame
+
+    ctx = I.ctx
+
+    def decorate(f):
+        mframe = Frame(None, {}, [], f.module)
+        mframe.cls_ctx = f.cls
+        fn = Closure(f, [])
+        fn.cls_ctx = f.cls
+        fn.is_raw = True          # what the wrappers call is the undecorated function
+        out = fn
+        for d in reversed(f.node.decorator_list):
+            out = I.call(I.eval(mframe, d), [out], {})
+        return out
+
+    # class-definition time: every method of the class that carries decorators of the repository gets its wrapper ONCE (guards are shared
+    # by all calls); calls of these methods from the body go through the wrappers (calls.invoke)
+    decorated = {}
+    siblings = [m for m in (fi.cls.members.values() if fi.cls is not None else []) if isinstance(m, FunctionInfo)] or [fi]
+    for m in siblings:
+        if not getattr(m.node, "decorator_list", None):
+            continue
+        if m is not fi and not all(_decorator_from_repo(I, m, d) for d in m.node.decorator_list):
+            continue
+        try:
+            decorated[m.key] = decorate(m)
+        except Unsupported:
+            if m is fi:
+                raise
+    fn = decorated.get(fi.key)
+    for k, v in decorated.items():
+        if not (isinstance(v, Closure) and getattr(v, "is_raw", False)):
+            ctx.ghost[("decorated", k)] = v
+    hook = getattr(con, "after_decoration", None)
+    if hook is not None:
+        hook(ctx, I, [v for v in decorated.values()], bound)
+    ctx.own_stores = []          # what decorating does (at class-definition time) is not a write of the call
+    a = fi.node.args
+    names = [x.arg for x in a.posonlyargs + a.args]
+    if fn is None:
+        value = run_body(I, fi, dict(bound), [], fi.cls)       # the function itself carries no decorator: its own body (its callees may)
+    else:
+        value = I.call(fn, [bound[n] for n in names], {})
+    if isinstance(value, Coro):
+        value = value.thunk()
+    return value
+
+
+def _decorator_from_repo(I, f, d):
+    """the decorator expression names a function defined in the repository (e.g. exclusive()), not a library one (property, staticmethod ...)"""
+    import ast as _ast
+
+    node = d.func if isinstance(d, _ast.Call) else d
+    if not isinstance(node, _ast.Name):
+        return False
+    r = I.repo.resolve_global(f.module, node.id)
+    return isinstance(r, FunctionInfo) or (isinstance(r, tuple) and r and r[0] == "import" and str(r[1]).startswith("cobald"))
+
+
 def explore(E, con, fi, res, body_runner=None):
     pending = [[]]
     npaths = 0
@@ -228,7 +291,9 @@ def explore(E, con, fi, res, body_runner=None):
                         _ctx.oblige("%s/published[%s]" % (short(con.key), lab), f, kind="invariant", meta={"after": what})
                 ctx.store_hook = hook
             try:
-                if body_runner is not None:
+                if getattr(con, "decorated", False):
+                    value = run_decorated(I, con, fi, bound)
+                elif body_runner is not None:
                     value = body_runner(I, fi, bound)
                 else:
                     value = run_body(I, fi, dict(bound), getattr(con, "closure_env", None) and con.closure_env(ctx, I, bound) or [], fi.cls)
@@ -867,6 +932,12 @@ def _compare(E, ctx, I, m, conc, out, kind, value, tr_old, con):
                 continue
             real = out["post"][oid].get(f)
             if not _num_close(sym, real, exact):
+                adm = _admits(E, ctx, m, out.get("bound"), z3.Select(ctx.heap[f], z3.IntVal(oid)), real)
+                if adm is True:
+                    continue
+                if adm is None:
+                    out["admits_undecided"] = True       # (a container, or the solver did not decide): not compared
+                    continue
                 return "field %s of object %d: symbolic %r, CPython %r" % (f, oid, sym, real)
     nstores = sum(len(s) for oid, s in out["stores"].items() if getattr(conc.types.get(oid), "events", True))     # shapes declared without store events do not count theirs
     symn = z3.simplify(m.eval(ctx.trlen - tr_old, model_completion=True))
